@@ -611,3 +611,32 @@ Proof.
   - rewrite H. reflexivity.
   - injection H as H. exact H.
 Qed.
+
+(* ---- text names ---- *)
+Theorem text_name_eq_runtime_lemma : forall f nm same_file same_scope,
+  wf_field f = true -> scopes_by_name f nm same_file same_scope = true ->
+  text_name f nm = rt_text_name f nm same_file same_scope.
+Proof.
+  intros f nm sf ss Hwf Hsc.
+  unfold text_name, rt_text_name, looks_like_group, rt_is_group_like, scopes_by_name in *.
+  rewrite (kind_eq_runtime_lemma f Hwf).
+  destruct (f_is_ext f); [reflexivity|].
+  cbn [orb] in Hsc. apply Bool.eqb_prop in Hsc. rewrite <- Hsc.
+  rewrite (String.eqb_sym (to_lower (n_msg_name nm)) (n_name nm)).
+  destruct (rt_kind f =? TYPE_GROUP); destruct sf; destruct ss;
+    destruct (String.eqb (n_name nm) (to_lower (n_msg_name nm))); reflexivity.
+Qed.
+
+(* a field is group-like only if its name is spelled exactly as the lower-cased message name: whatever the scopes
+   and the encoding, a name that differs from it (for instance only in the case of a letter) keeps its own text name,
+   on both sides *)
+Theorem text_name_not_lowered_lemma : forall f nm same_file same_scope,
+  n_name nm <> to_lower (n_msg_name nm) -> f_is_ext f = false ->
+  text_name f nm = n_name nm /\ rt_text_name f nm same_file same_scope = n_name nm.
+Proof.
+  intros f nm sf ss Hne Hext.
+  unfold text_name, rt_text_name, looks_like_group, rt_is_group_like. rewrite Hext.
+  assert (H1 : String.eqb (n_name nm) (to_lower (n_msg_name nm)) = false) by (apply String.eqb_neq; exact Hne).
+  rewrite (String.eqb_sym (to_lower (n_msg_name nm)) (n_name nm)), H1.
+  rewrite !Bool.andb_false_r. cbn [andb]. split; reflexivity.
+Qed.
